@@ -6,6 +6,7 @@ import (
 	"go/types"
 	"sort"
 	"strings"
+	"sync"
 
 	"siotcheck/kit"
 )
@@ -510,7 +511,10 @@ type c12Helper struct {
 	why    string
 }
 
-var c12HelperMemo = map[*kit.Func]*c12Helper{}
+var (
+	c12HelperMemo = map[*kit.Func]*c12Helper{}
+	c12HelperMu   sync.Mutex // properties run concurrently in the sensitivity sweep
+)
 
 // c12ParamChain traces e back to parameter prm of f: the transform steps
 // (innermost first), whether the value depends on prm at all, and whether the
@@ -635,11 +639,16 @@ func c12StepsKey(steps []kit.FieldStep) string {
 // computed (value-mode interval analysis), so that "returns time.Now() when
 // ns == 0" is a witnessed loss, not a guess.
 func c12SummariseHelper(c *kit.Ctx, fn *kit.Func) *c12Helper {
-	if h := c12HelperMemo[fn]; h != nil {
+	c12HelperMu.Lock()
+	hm := c12HelperMemo[fn]
+	c12HelperMu.Unlock()
+	if h := hm; h != nil {
 		return h
 	}
 	h := &c12Helper{status: "unknown"}
+	c12HelperMu.Lock()
 	c12HelperMemo[fn] = h
+	c12HelperMu.Unlock()
 	sig := fn.Signature()
 	ps := fn.Params()
 	if fn.Decl == nil || fn.Body == nil || sig == nil || sig.Recv() != nil || len(ps) != 1 || sig.Variadic() || sig.Results().Len() != 1 {
